@@ -75,9 +75,8 @@ theorem inStep_fix (regular : Bool) (conv : U32) (cmd frg : BitVec 8) (wnd : Bit
   have hpre : MoveFix (inPre regular wnd una st.k) := MoveFix.of_same (inPre_rcvSame regular wnd una st.k) h
   rw [inStep_k]
   split
-  · obtain ⟨b, e1⟩ := parseAck_frame (inPre regular wnd una st.k) sn
-    obtain ⟨b2, e2⟩ := parseFastack_frame (parseAck (inPre regular wnd una st.k) sn) sn ts
-    rw [e2, e1]; exact hpre
+  · obtain ⟨b, u, e2⟩ := ackPath_frame (inPre regular wnd una st.k) sn ts
+    rw [e2]; exact hpre
   · split
     · split
       · split
